@@ -616,6 +616,11 @@ class Aspire:
         sampler_config = sampler_config or {}
         sampler_config.pop("sampler_class", None)
 
+        if saved_sampler_type:
+            # A configuration rewritten by this instance (e.g. by fit) keeps
+            # naming the sampler that wrote the checkpoint stored in the file
+            aspire._last_sampler_type = saved_sampler_type
+
         if checkpoint_bytes is not None:
             aspire._resume_from_default = checkpoint_bytes
             aspire._resume_sampler_type = (
